@@ -101,34 +101,14 @@ def run(ctx, rep):
         rep.require("C06.b", "in-loop", bool(lp), where=where(NX, pb), what="the push is inside the chunking loop")
         if lp:
             header, blocks = lp[0]
-            # a switch inside the loop on Ge(len(vec), self.max_size) whose true edge leaves the loop, and the push is
-            # unreachable from the header in one iteration when that edge is forced
-            bound = None
-            for sw in blocks:
-                t = NX.term(sw)
-                if t["k"] != "switch":
-                    continue
-                e = flow.expr_of(NX, t["discr"])
-                if e[0] == "bin" and e[1] in ("Ge", "Gt", "Le", "Lt"):
-                    txt = repr(e)
-                    if "max_size" in txt and "::len" in txt:
-                        bound = (sw, e)
-            okb = False
-            if bound:
-                sw, e = bound
-                t = NX.term(sw)
-                zero = [x for v, x in t["targets"] if v == "0"]
-                true_t = t["otherwise"]
-                # operands: len(vec) OP max_size
-                lhs_len = "::len" in repr(e[2])
-                hit = true_t if (e[1] in ("Ge", "Gt")) == lhs_len else (zero[0] if zero else None)
-                backs = [(l, h) for (l, h) in C.back_edges(NX) if h == header]
-                # when the bound is hit, control leaves the loop without pushing
-                okb = hit is not None and pb not in NX.reachable_from(hit, cut_edges=backs)
-                # and every path from the loop header to the push passes this test (not-hit edge)
-                other = [x for x in NX.succ(sw) if x != hit]
-                okb = okb and pb not in NX.reachable_from(header, cut_edges=[(sw, x) for x in other] + backs)
-                okb = okb and e[1] in ("Ge", "Le") if lhs_len else okb
+            # decided for sample values: with the chunk already max_size long (every `len OP max_size` comparison evaluated
+            # for len = max = 1000) the push is unreachable; one byte below the bound (len = 999) it is reachable. `>=`/`<`,
+            # `loop { if .. break }` and `while ..` spellings are all accepted; `>` / `<=` (off by one) are not.
+            is_len = lambda x: isinstance(x, tuple) and x and x[0] == "call" and x[1].endswith("::len") and "'buf'" not in repr(x)
+            is_max = lambda x: isinstance(x, tuple) and x and x[0] in ("path", "proj") and bool(x[2]) and x[2][-1] == "max_size"
+            at_bound = reachable_eval(prog, NX, num_eval([(is_len, 1000), (is_max, 1000)]), depth=0)
+            below = reachable_eval(prog, NX, num_eval([(is_len, 999), (is_max, 1000)]), depth=0)
+            okb = pb not in at_bound and pb in below
             rep.check("C06.b", "bound-before-push", okb, where=where(NX, pb), what="every iteration tests vec.len() >= max_size before pushing: a chunk never grows beyond max_size in the loop" if okb else "a byte can be pushed without the max_size test having been passed in that iteration (chunks may exceed max_size)")
         # ---- C06.d -----------------------------------------------------------------------------
         pv = flow.base_local(NX, op_place(pushes[0][1]["args"][1])) if op_place(pushes[0][1]["args"][1]) else None
